@@ -596,6 +596,8 @@ func runC18(c *Check, w *World) {
 	// what the endpoints reflect must itself be right: the registry entry of each advertised name (the
 	// /ocra/suite and raw_suite answers) and the library's URL builder (the /otp/url answer)
 	ruleRegistryFidelity(c, w, "R18.8")
+	ruleWireEnums(c, w, "R18.9")
+	c.Floor("R18.9", 11)
 	runC16(c, w)
 	c.Floor("R18.1", 20)
 	c.Floor("R18.2", 60)
